@@ -85,6 +85,16 @@ CLAIMS = {
           'normalisation histories vs the Lean scale model. [partial] Pchip interpolation is not modelled (checked at sample points only).',
   'note': 'Trusted: Lean kernel + standard axioms; hand models Model/Profile.lean, Model/ProfileNorm.lean tied by differential testing; scipy PchipInterpolator; float rounding (1e-9 relative).',
  },
+ 'C08': {
+  'design_ref': 'DESIGN.md §5 C08',
+  'technique': 'Lean 4 theorems on a model of catalogue indexing (index forms, cached-value slicing, heap sharing of the extras list) over tables regenerated from __getitem__ + exhaustive property x index-form oracle',
+  'text': 'Proved in Lean: for every per-source property, every index form (int incl. negative, slice with step, int list with repeats/negatives, bool mask) and every set of properties cached before slicing, cat[idx].p = cat.p[idx] '
+          '(getitem_commutes, sel_map) - given that per-source properties are maps over the labels (C07 row-order freedom); the slice receives its own extras list so that add/remove on either side never shows on the other '
+          '(getitem_fresh_extras, slice_extras_independent - table obligations discharged against Gen/CatSliceTable.lean, regenerated from __getitem__ every run); no attribute copied by reference is modified in place by any method of SourceCatalog or ApertureStats (no_shared_mutable_attribute, by decide on the extracted table). '
+          '[partial] the scalar (as_scalar) shapes and the private length-1 rule are checked on the implementation only. Tie + search: every public property (82 of SourceCatalog, 49 of ApertureStats, enumerated at run time) x 6 index forms x {evaluated before/after indexing} compared on real catalogues; '
+          'selected positions compared with the Lean index model; parent/child interference histories (add/rename/remove extra property, circular/kron photometry, to_table).',
+  'note': 'Trusted: Lean kernel + standard axioms; AST extractor of init_attr / in-place mutations; documented exceptions: `labels`/`ids` are always iterable.',
+ },
 }
 
 _todo = 'check not built yet in this round (see DESIGN.md §10 build order); not claimed until its machinery is committed'
